@@ -455,6 +455,8 @@ def _task_parsed(task):
     import warnings
     t = Tally()
     pats = dict(c01.base_patterns())
+    pats["neg0"] = bytes([0x80, 0x00, 0x00, 0x00, 0x00, 0x00, 0x00, 0x00] * 40)   # negative zero for every float width, most negative ints
+    pats["neg0le"] = bytes([0x00, 0x80] * 160)
     for i in range(24):
         pats[f"mul{i}"] = bytes((j * (2 * i + 3) + 17 * i) & 0xFF for j in range(320))
     fams = {"int": [0, 1, 7, 2.5, True], "float": [0.0, 1.5, 2, math.nan, math.inf], "str": ["", "a", "b"], "bytes": [b"", b"a"], "bool": [False, True, 0, 1, 2]}
@@ -474,7 +476,18 @@ def _task_parsed(task):
                         out = list(defn.packet_generator(pkt))
                     if len(out) != 1:
                         continue
+                    ref_items = {it.name: it for it in o.items}
                     for name, p in out[0].items():
+                        # "additionally carries the raw encoded value": the raw value is the one the bits of THIS packet encode (sign of zero,
+                        # int vs float and all), not merely something equal to it
+                        it = ref_items.get(name)
+                        if it is not None and not it.unjudged and hasattr(p, "raw_value"):
+                            from mc.observe import same_value
+                            t.evals += 1
+                            if not same_value(it.raw, plain(p.raw_value)):
+                                t.violation({"kind": "raw-value", "class": type(p).__name__, "parsed": True, "what": "not the encoded value"},
+                                            {"parsed": True, "field_kind": c01.pal()[ki].name, "pattern": pn, "name": name},
+                                            expected=repr(it.raw), observed=repr(plain(p.raw_value)))
                         if name in ("VERSION", "TYPE", "SEC_HDR_FLG", "SEQ_FLGS", "SRC_SEQ_CTR", "PKT_LEN") and (ki, pn) != (task["kinds"][0], task["patterns"][0]):
                             continue  # header values are the same for every kind
                         v = plain(p)
@@ -607,7 +620,7 @@ def run(ctx):
     from mc.checks import c01
     from mc.kernel import chunked, fan_out
     nk = len(c01.pal())
-    pnames = list(c01.base_patterns()) if not ctx.quick else ["index", "ones", "zeros", "small"]
+    pnames = (list(c01.base_patterns()) if not ctx.quick else ["index", "ones", "zeros", "small"]) + ["neg0", "neg0le"]
     if not ctx.quick:
         pnames += [f"mul{i}" for i in range(24)]
     t.merge(fan_out(_task_parsed, [{"kinds": ch, "patterns": pnames} for ch in chunked(list(range(nk)), 4)], jobs=ctx.jobs, seed=ctx.seed))
